@@ -737,6 +737,30 @@ pub fn c15(a: &Args) {
             run_c15(&mut outs[(id as usize) % shards], fmt, 1_000_000 + id, "rnd", &p, i % 3);
         }
     }
+    // (3) runs: a run of n identical cells for EVERY n up to the width, as the last thing in the file, at the start of a row and
+    //     in the middle of one (run-length encoders write n as a raw byte: every byte value that is also a control code of the
+    //     format or of DOS - LF, FF, CR, ^V, ^Y, ^Z, ESC - occurs as a count)
+    for (fmt, w) in C15_FORMATS {
+        let chars = c15_chars(fmt);
+        for n in 1..=w {
+            for place in 0..3u64 {
+                let (fg, bg) = c15_attr(fmt, (n % 15 + 1) as u32, (n % 7 + 1) as u32);
+                let run_ch = chars[(n as usize * 13) % chars.len()].max(33);
+                let run: Vec<Cell> = (0..n).map(|_| Cell { ch: run_ch, fg, bg, flags: 0 }).collect();
+                let other = Cell { ch: if run_ch == 66 { 67 } else { 66 }, ..DEFAULT_CELL };
+                let mut rows: Vec<Vec<Cell>> = vec![vec![other; 3]];
+                match place {
+                    0 => rows.push(run),                                                    // the file ends with the run
+                    1 => { let mut r0 = run; if n < w { r0.push(other); } rows.push(r0); rows.push(vec![other]); }
+                    _ => { let mut r0 = vec![other]; r0.extend(run.into_iter().take((w - 1) as usize)); rows.push(r0); }
+                }
+                let p = Pic { w, h: rows.len() as i32, ice: IceMode::Unlimited, rows, extra_colors: vec![] };
+                id += 1;
+                n_random += 1;
+                run_c15(&mut outs[(id as usize) % shards], fmt, 2_000_000 + id, "runs", &p, (n as u64 + place) % 3);
+            }
+        }
+    }
     let mut total = 0;
     for o in &mut outs {
         o.flush();
